@@ -313,6 +313,12 @@ func checkC13(c *c13Case) error {
 				}
 			}
 			if ns, ok := r.(xsel.NodeSet); ok && op.Hold {
+				if op.Alt != op.Plain {
+					// the caller keeps its own copy, in a slice with room to spare (nil beyond its length)
+					own := make(xsel.NodeSet, len(ns), len(ns)+1+step%5)
+					copy(own, ns)
+					ns = own
+				}
 				held = append(held, heldSet{ns, append([]store.Cursor{}, ns[:cap(ns)]...), op.Doc})
 			}
 			if (op.V >= 0 && op.V < len(held) || op.W >= 0 && op.W < len(held)) && strings.Contains(c.Exprs[op.Expr], "$") {
@@ -521,7 +527,12 @@ func TestC13(t *testing.T) {
 			"descendant-or-self::node()", "/*", "//*[1]", "..", "self::node()", "ancestor-or-self::node()", "following::node()", "preceding::node()",
 			// names rendered by the library; the implicit xml prefix
 			"name(//x:*)", "name(//*[namespace-uri() != ''])", "//*[starts-with(name(), 'x:')]", "name(/*)", "name(//@*[namespace-uri() != ''])", "count(//*[name() = 'x:a'])", "concat(name(//x:a), '|', name(//y:a))",
-			"//@xml:lang", "//xml:*", "count(//@xml:*)", "//*[@xml:lang]", "$xml:n"}
+			"//@xml:lang", "//xml:*", "count(//@xml:*)", "//*[@xml:lang]", "$xml:n",
+			// axes that include their context nodes, straight from a caller-held slice
+			"$v//*", "$v/descendant-or-self::*", "$w/ancestor-or-self::*", "$v/descendant-or-self::node()", "$w/ancestor-or-self::node()", "$v/following::*", "$w/preceding::*", "$v/*", "$w/@*", "$v/namespace::*",
+			"$v/following-sibling::*", "$w/preceding-sibling::*", "$v/descendant::*", "$w/ancestor::*", "$v/parent::*", "$v/self::*",
+			// literals with backslashes (single-quoted: plain characters)
+			"'a\\b'", "//*[. = 'x\\ty']", "concat('\\n', 'q', name(/*))", "string-length('\\r\\n-')"}
 		for i, n := 0, rapid.IntRange(3, 6).Draw(t, "nExprs"); i < n; i++ {
 			if rapid.Bool().Draw(t, "fixedExpr") {
 				c.Exprs = append(c.Exprs, fixed[rapid.IntRange(0, len(fixed)-1).Draw(t, "fixed")])
